@@ -40,7 +40,7 @@ class Holes:
             v = concrete[name]
             if ty == "int": return str(v) if v >= 0 else "(0 - %d)" % (-v)
             if ty == "str": return '"%s"' % v
-            if ty == "float": return repr(float(v)) if v >= 0 else "(0.0 - %r)" % (-float(v))
+            if ty == "float": return float_text(float(v)) if v >= 0 else "(0.0 - %s)" % float_text(-float(v))
         if ty == "int": return str(HOLE_INT_BASE + k)
         if ty == "str": return '"' + HOLE_STR_FMT % k + '"'
         if ty == "float": return "%d.5" % (HOLE_FLOAT_BASE + k)
@@ -91,15 +91,22 @@ def show_stmt(s, lvl, holes, concrete):
     raise ValueError("stmt " + repr(s))
 
 
+def float_text(v):
+    """exact decimal spelling X.Y of a finite non-negative double (the tokenizer has no X.YeZ form); str::parse::<f64> is correctly rounded, so it reads back the same double"""
+    import decimal
+    t = format(decimal.Decimal(float(v)), "f")
+    return t if "." in t else t + ".0"
+
+
 def show_expr(e, lvl, holes, concrete, prec=0):
     k = e[0]
     E = lambda x, p=0: show_expr(x, lvl, holes, concrete, p)
     def wrap(txt, myprec): return "(" + txt + ")" if myprec < prec else txt
     if k == "int": return str(e[1]) if e[1] >= 0 else wrap("-%d" % -e[1], 6)
     if k == "float":
-        r = repr(float(e[1]))
-        if "e" in r or "inf" in r or "nan" in r: raise ValueError("float literal not printable: " + r)
-        return r if e[1] >= 0 else wrap("-" + repr(-float(e[1])), 6)
+        if e[1] != e[1]: raise ValueError("float literal not printable: nan")
+        if e[1] in (float("inf"), float("-inf")): return "1e999" if e[1] > 0 else wrap("-1e999", 6)      # the only spelling of an infinity: a literal out of range
+        return float_text(e[1]) if e[1] >= 0 else wrap("-" + float_text(-float(e[1])), 6)
     if k == "str": return '"%s"' % e[1]
     if k == "bool": return "true" if e[1] else "false"
     if k == "nil": return "nil"
